@@ -17,7 +17,7 @@ func prepareDir(root, mode string) string {
 	switch mode {
 	case "empty":
 		must(os.Mkdir(db, 0o755))
-	case "existing":
+	case "existing", "stale_tmp":
 		must(os.MkdirAll(filepath.Join(db, "wal"), 0o755))
 		old := config.NewDefaultConfig(db)
 		old.MemTableSize = 12345
@@ -26,6 +26,12 @@ func prepareDir(root, mode string) string {
 		must(os.WriteFile(filepath.Join(db, manifestName), b, 0o644))
 		must(os.WriteFile(filepath.Join(db, "wal", "0000000001.wal"), []byte("not really a log"), 0o644))
 		must(os.WriteFile(filepath.Join(db, "note.txt"), []byte("bystander"), 0o644))
+		if mode == "stale_tmp" {
+			// left behind by a save that died between writing the temporary file
+			// and renaming it; longer than any manifest this check stores
+			stale := append(append([]byte{}, b...), []byte("\n"+strings.Repeat("{\"left\": \"over\"}\n", 300))...)
+			must(os.WriteFile(filepath.Join(db, manifestName+".tmp"), stale, 0o644))
+		}
 	}
 	return db
 }
@@ -47,6 +53,12 @@ func errStr(err error) string {
 // directory itself (it may have been created) and MANIFEST may differ.
 func onlyManifest(rel string) bool {
 	return rel == "db" || rel == filepath.Join("db", manifestName)
+}
+
+// onlyManifestOrStaleTmp: additionally a stale MANIFEST.tmp planted by the
+// case (left by an earlier, interrupted save) may be consumed.
+func onlyManifestOrStaleTmp(rel string) bool {
+	return onlyManifest(rel) || rel == filepath.Join("db", manifestName+".tmp")
 }
 
 // runAssign: part (a) of the rule.
@@ -103,7 +115,11 @@ func runAssign(c *Case) *Fail {
 		return nil
 	}
 	// accepted: only MANIFEST may differ, and it must load back equal
-	if kind, desc := diffSnap(before, after, onlyManifest); kind != "" {
+	skip := onlyManifest
+	if c.Dir == "stale_tmp" {
+		skip = onlyManifestOrStaleTmp
+	}
+	if kind, desc := diffSnap(before, after, skip); kind != "" {
 		sig := "assign/save-changed-other-files/" + kind
 		if strings.Contains(desc, manifestName+".tmp") {
 			sig = "assign/save-left-temp-file"
